@@ -190,6 +190,31 @@ m("M09e_update_free_creates", ["C09"], [("pdf/src/file.rs", "            XRef::P
 m("M09f_abs_positions", ["C09"], [("pdf/src/file.rs", "            let pos = self.backend.len() - self.start_offset;", "            let pos = self.backend.len();")], expect="C09-UNITS",
   note="(= defect repaired by cdfe09a) needs a source file with bytes before the header")
 
+# ------------------------------------------------------------------ C03
+m("M03a_no_tab", ["C03"], [("pdf/src/parser/lexer/mod.rs", "matches!(b, 0 | b' ' | b'\\r' | b'\\n' | b'\\t' | b'\\x0c')", "matches!(b, 0 | b' ' | b'\\r' | b'\\n' | b'\\x0c')")], expect="C03-TABLE")
+m("M03b_no_f_escape", ["C03"], [("pdf/src/parser/lexer/str.rs", "                    b'f' => Some(b'\\x0c'),\n", "")], expect="C03-TABLE-str")
+m("M03c_octal_2", ["C03"], [("pdf/src/parser/lexer/str.rs", "                        for _ in 0..3 {", "                        for _ in 0..2 {")], expect="C03-TABLE-str")
+m("M03d_no_restore", ["C03"], [("pdf/src/parser/mod.rs", "        Err(e) => {\n            lexer.set_pos(pos);\n            Err(e)\n        }", "        Err(e) => {\n            let _ = pos;\n            Err(e)\n        }")], expect="C03-G1")
+m("M03e_hex_odd", ["C03"], [("pdf/src/parser/lexer/str.rs", "            b'>' => {\n                self.back()?;\n                0\n            }", "            b'>' => return Ok(None),")], expect="C03-TABLE-hex", note="odd final digit dropped")
+m("M03f_delim", ["C03"], [("pdf/src/parser/lexer/mod.rs", 'b"()<>[]{}/%".contains(b)', 'b"()<>[]/%".contains(b)')], expect="C03-TABLE", note="braces no longer delimiters")
+m("M03g_string_one_more", ["C03"], [("pdf/src/parser/mod.rs", "            string_lexer.get_offset()\n        };\n        // Advance to end of string\n        lexer.offset_pos(bytes_traversed);\n        // decrypt it", "            string_lexer.get_offset() + 1\n        };\n        // Advance to end of string\n        lexer.offset_pos(bytes_traversed);\n        // decrypt it")],
+  expect="C03-G3", note="swallows the byte after a literal string: only visible when no white-space follows")
+m("M03h_integer_no_rollback", ["C03"], [("pdf/src/parser/mod.rs", "                check(flags, ParseFlags::INTEGER)?;\n                // We are probably in an array of numbers - it's not a reference anyway\n                lexer.set_pos(pos_bk); // (roll back the lexer first)", "                check(flags, ParseFlags::INTEGER)?;\n                // We are probably in an array of numbers - it's not a reference anyway")],
+  expect="C03-G1", note="`[1 2 3]`: two integers followed by a non-R token lose the tokens")
+m("M03i_key_not_decoded", ["C03"], [("pdf/src/parser/mod.rs", "let key = Name(decode_name(&token.reslice(1..))?);", "let key = token.reslice(1..).to_name()?;")], expect="C03-TABLE-tok")
+m("M03j_minus_only", ["C03"], [("pdf/src/parser/lexer/mod.rs", "        if slice[0] == b'-' || slice[0] == b'+' {\n            if slice.len() < 2 {\n                return None;", "        if slice[0] == b'-' {\n            if slice.len() < 2 {\n                return None;")], expect="C03-TABLE-tok", note="+1.5 rejected as real")
+m("M03k_comment_lf_only", ["C03"], [("pdf/src/parser/lexer/mod.rs", ".position(|&b| b == b'\\n' || b == b'\\r')", ".position(|&b| b == b'\\n')")], expect="C03-TABLE")
+
+# ------------------------------------------------------------------ C04
+m("M04a_list_no_space", ["C04"], [("pdf/src/primitive.rs", "    for p in parts {\n        write!(out, \" \")?;\n        p.serialize(out)?;", "    for p in parts {\n        p.serialize(out)?;")], expect="C04-ADJ")
+m("M04b_no_paren_escape", ["C04"], [("pdf/src/primitive.rs", "                    b'\\\\' | b'(' | b')' => write!(out, r\"\\\")?,\n                    // a raw CR", "                    b'\\\\' | b'(' => write!(out, r\"\\\")?,\n                    // a raw CR")], expect="C04-ESC-str", note="string ending in an unbalanced ')'")
+m("M04c_dict_no_space", ["C04"], [("pdf/src/primitive.rs", "            serialize_name(key, out)?;\n            write!(out, \" \")?;\n            val.serialize(out)?;", "            serialize_name(key, out)?;\n            val.serialize(out)?;")], expect="C04-ADJ", note="/Key42 fuses key and value")
+m("M04d_name_hash_raw", ["C04"], [("pdf/src/primitive.rs", "b'!' ..= b'~' if b != b'#' && !b\"()<>[]{}/%\".contains(&b) =>", "b'!' ..= b'~' if !b\"()<>[]{}/%\".contains(&b) =>")], expect="C04-ESC-name", note="name containing '#'")
+m("M04e_name_panic", ["C04"], [("pdf/src/primitive.rs", "            _ => write!(out, \"#{:02x}\", b)?,\n        }\n    }\n    Ok(())", "            b if b < 0x80 => write!(out, \"#{:02x}\", b)?,\n            _ => panic!(\"only ASCII\"),\n        }\n    }\n    Ok(())")], expect="C04", note="non-ASCII name panics")
+m("M04f_keys_display", ["C04"], [("pdf/src/primitive.rs", "            serialize_name(key, out)?;\n            write!(out, \" \")?;", "            write!(out, \"{} \", key)?;")], expect="C04-ESC-name")
+m("M04g_cr_raw", ["C04"], [("pdf/src/primitive.rs", "                    b'\\r' => {\n                        write!(out, r\"\\r\")?;\n                        continue;\n                    }\n", "")], expect="C04-ESC-str", note="string containing CR is read back with LF")
+m("M04h_ref_no_space", ["C04"], [("pdf/src/primitive.rs", 'Primitive::Reference(r) =>  write!(out, "{} {} R", r.id, r.gen)?,', 'Primitive::Reference(r) =>  write!(out, "{} {}R", r.id, r.gen)?,')], expect="C04-ADJ", note="`1 0R`")
+
 
 def gen_patch(mu):
     files = {}
